@@ -96,6 +96,45 @@ def main():
             except Exception as e:
                 recs.append(dict(ops=ops_model, kind='exc:' + type(e).__name__, got=[], len=0, probe=[], lo=1, hi=1,
                                  range=[], total=total))
+    # ---- distinct keys that differ in b byte positions only (b = 2 .. width): the number of radix passes
+    #      actually executed - and with it the array the sorted data ends up in - depends on b; no duplicate anywhere
+    width = 4 if fam[0] in 'IU' else 8
+    for b in range(2, width + 1):
+        for variant in ('low', 'high'):
+            if b == width and variant == 'high':
+                continue
+            pos = list(range(b)) if variant == 'low' else list(range(width - b - (1 if fam[0] in 'IL' else 0), width - (1 if fam[0] in 'IL' else 0)))
+            if min(pos) < 0:
+                continue
+            const = rng.randint(1, 100)
+            ks = set()
+            while len(ks) < 900:
+                x = 0
+                for p in range(width):
+                    byte = rng.randint(0, 255) if p in pos else (const + p) % 100
+                    x |= byte << (8 * p)
+                if fam[0] in 'IL' and x >= 1 << (8 * width - 1):
+                    x -= 1 << (8 * width)
+                ks.add(x)
+            KK = sorted(ks)
+            rk = {k: i + 1 for i, k in enumerate(KK)}
+            order = list(KK)
+            rng.shuffle(order)
+            cut = rng.randint(1, len(order) - 1)
+            parts = [order[:cut], order[cut:]]
+            ops_real = [SE(parts[0]), list(parts[1])] if b % 2 else [list(parts[0]), TS(parts[1])]
+            try:
+                res = mu(ops_real)
+                kindname = 'Set' if type(res) is SE else type(res).__name__
+                got = [rk.get(k, 'key?%r' % (k,)) for k in res]
+                probes = [rng.randint(1, len(KK)) for _ in range(12)]
+                probe = [[r, 1 if KK[r - 1] in res else 0] for r in probes]
+                lo, hi = sorted((rng.randint(1, len(KK)), rng.randint(1, len(KK))))
+                rg = [rk.get(k, 'key?') for k in res.keys(KK[lo - 1], KK[hi - 1])]
+                recs.append(dict(ops=[[rk[k] for k in p] for p in parts], kind=kindname, got=got, len=len(res), probe=probe,
+                                 lo=lo, hi=hi, range=rg, total=len(order)))
+            except Exception as e:
+                recs.append(dict(ops=[], kind='exc:' + type(e).__name__, got=[], len=0, probe=[], lo=1, hi=1, range=[], total=len(order)))
     json.dump(dict(records=recs), open(sys.argv[2], 'w'))
 
 
